@@ -24,6 +24,7 @@ LEVEL_TEXT = (
 )
 LEVEL_NOTE = "Trusts R-LAYER (refmodel/layers.py) and the raw graph; strict only when all layer modules are pairwise unrelated and every layer matches at least one module."
 LEVEL_TEXT += ' Layers may list a module next to one of its own ancestors (forced: first child listed, a later-sorting sibling takes part in the imports). Additionally an end-to-end soak: random projects on disk are scanned with the real scanner (externals kept or dropped, external exclusions, level limits, module_path below the root) and module rules, layer rules, diagram rules and plots are interleaved on those architectures with every monitor armed.'
+LEVEL_TEXT += ' Module names include a hyphenated and a non-ASCII one; an unmentioned regex layer may match nothing.'
 RULE = (
     "an evaluation = one LayerRule.assert_applies; non-trivial = judged by the strict R-LAYER oracle on a non-empty import relation; distinct = "
     "distinct (graph, layer definition, rule) triples"
